@@ -175,6 +175,34 @@ def run(prog: Program, L: Ledger) -> None:
     L.rule("G2", "every stochastic call site's receiver has provenance Driver._rng; .rng/._rng bound exactly once each")
     L.rule("G3", "seed: int|None is honoured for every non-negative int: case analysis None/0/k>0 through Driver.__init__ into PCG64(...)")
     L.rule("G4", "no clock, pid, hash()/id() ordering or set-iteration dependence on simulation paths")
+    # G3 (package-wide part): a seed is never truth-tested — 0 is a seed like any other.  Every parameter / local named
+    # `seed` (the constructors that accept one and hand it on) is covered, not only Driver.__init__.
+    n_seed_fns = 0
+    for fi_ in prog.iter_functions():
+        names_ = {a_.arg for a_ in fi_.node.args.args + fi_.node.args.kwonlyargs if "seed" in a_.arg.lower()}
+        if not names_:
+            continue
+        n_seed_fns += 1
+        for n_ in walk_no_nested(fi_.node):
+            tests_ = []
+            if isinstance(n_, (ast.If, ast.While, ast.IfExp, ast.Assert)):
+                tests_ = [n_.test]
+            elif isinstance(n_, ast.BoolOp):
+                tests_ = list(n_.values[:-1]) if not isinstance(n_, ast.If) else []
+            elif isinstance(n_, ast.UnaryOp) and isinstance(n_.op, ast.Not):
+                tests_ = [n_.operand]
+            elif isinstance(n_, ast.Call) and isinstance(n_.func, ast.Name) and n_.func.id == "bool" and n_.args:
+                tests_ = [n_.args[0]]
+            for t_ in tests_:
+                while isinstance(t_, ast.UnaryOp) and isinstance(t_.op, ast.Not):
+                    t_ = t_.operand
+                parts_ = t_.values if isinstance(t_, ast.BoolOp) else [t_]
+                for p_ in parts_:
+                    if isinstance(p_, ast.Name) and p_.id in names_:
+                        L.violation("G3", f"{fi_.qualname}:seed-truth-test", f"{fi_.module.relpath}:{n_.lineno}",
+                                    f"`{norm(n_.test if hasattr(n_, 'test') else n_)[:70]}` takes the truth value of `{p_.id}`: seed 0 is treated as no seed",
+                                    "seed=0: the seed is dropped on the way to the generator, which is then seeded from OS entropy — two runs with seed 0 differ", norm(p_))
+    L.floor("functions that accept a seed (scanned for truth tests of it)", n_seed_fns, 1)
     L.rule("G5", "no mutable object (package-class instance, numpy array, list/dict/set) defined at module or class level is handed out as per-object state: two simulations built in one process share nothing but code and constants")
     from ..sharing import shared_escapes
 
